@@ -1547,6 +1547,9 @@ class BaseSpaceImpl(*_base_space_impl_base):
             if not cells.is_cached:
                 self.model.clear_obj(cells)
             cells.on_delete()
+        for ref in self.own_refs.values():
+            # Clear values that read the references by attribute access
+            self.model.clear_attr_referrers(ref)
         super().on_delete()
 
 
